@@ -79,7 +79,7 @@ def _sub_seed(seed, sub_name, shard):
     return (int(seed) * 1000003 + zlib.crc32(sub_name.encode()) * 101 + shard) % (2 ** 63)
 
 
-def _run_hypothesis_shard(sub, tier, seed, shard, n_cases):
+def _run_hypothesis_shard(sub, tier, seed, shard, n_cases, known_cls=()):
     import hypothesis
     from hypothesis import HealthCheck, Phase, given, settings
 
@@ -98,6 +98,14 @@ def _run_hypothesis_shard(sub, tier, seed, shard, n_cases):
         try:
             info = _guarded(sub.check)(case)
         except PropertyViolation as exc:
+            if exc.cls in known_cls:
+                # a listed (known, unrepaired) finding: counted, reported once, and the search goes on behind it
+                rec.discard("known-finding:" + exc.cls)
+                size = len(canon(case))
+                if exc.cls not in known_hit or size < known_hit[exc.cls][0]:
+                    known_hit[exc.cls] = (size, {"cls": exc.cls, "clause": exc.clause, "message": exc.message,
+                                                 "case": json.loads(canon(case))})
+                return
             seen.append((len(canon(case)), exc, case))
             raise
         except Discard as d:
@@ -107,6 +115,7 @@ def _run_hypothesis_shard(sub, tier, seed, shard, n_cases):
             env.clean_proc_tmp()
         rec.record(case, info)
 
+    known_hit = {}
     test = given(sub.strategy(tier))(body)
     test = settings(max_examples=n_cases, database=None, deadline=None,
                     derandomize=False, report_multiple_bugs=False,
@@ -128,6 +137,7 @@ def _run_hypothesis_shard(sub, tier, seed, shard, n_cases):
         _, exc, case = min(seen, key=lambda t: t[0])
         failures.append({"cls": exc.cls, "clause": exc.clause,
                          "message": exc.message, "case": json.loads(canon(case))})
+    failures.extend(f for _, f in known_hit.values())
     return rec, failures
 
 
@@ -202,7 +212,8 @@ def _worker_inner(task):
         mod = importlib.import_module(mod_name)
         sub = [s for s in mod.SUBCHECKS if s.name == sub_name][0]
         if sub.strategy is not None:
-            rec, failures = _run_hypothesis_shard(sub, tier, seed, shard, n_cases)
+            known_cls = set(e.get("cls") for e in load_known(mod.PROPERTY) if e.get("subcheck") == sub_name)
+            rec, failures = _run_hypothesis_shard(sub, tier, seed, shard, n_cases, known_cls)
         else:
             rec, failures = _run_enum_shard(sub, tier, seed, shard, nshards)
         return {"sub": sub_name, "shard": shard, "rec": rec.dump(),
